@@ -550,12 +550,45 @@ def gen_lit(rng, sep):
     return t
 
 
-def gen_ini(rng, sep, env):
+def directive_lookalike(rng, sep):
+    """a line that merely LOOKS like an include directive: only the nine bytes `@INCLUDE ` (with the blank)
+    at the very beginning of a line are a directive of qconfig_parse_file. -> IniNode or None"""
+    S = bytes([sep])
+    k = rng.randrange(9)
+    if k == 0:      # keys that start with the directive text without the blank
+        n = IniNode("entry", name=rng.choice([b"@INCLUDES", b"@INCLUDE_DIR", b"@INCLUDE.d", b"@INCLUDE"]),
+                    parts=[("lit", rng.choice([b"a b", b"/etc", b"x", b""]))])
+        n.nospace = True            # no blank between this key and the separator
+        return None if sep in (0x20,) or S in n.name else n
+    if k == 1:      # a bare `@INCLUDE`, the directive followed by a TAB, lower / mixed case
+        t = rng.choice([b"@INCLUDE", b"@INCLUDE\tinc", b"@include inc", b"@Include inc", b"@INCLUDE\t inc"])
+        n = IniNode("bare", text=t)
+    elif k == 2:    # the directive after leading blanks is no directive
+        n = IniNode("bare", text=b"@INCLUDE " + rng.choice([b"inc", b"/V/inc", b"nothere"]))
+        n.lead = rng.choice([b" ", b"\t", b"  "])
+    elif k == 3:    # ... nor in a comment
+        return IniNode("comment", text=rng.choice([b"@INCLUDE inc", b" @INCLUDE /V/inc", b"#@INCLUDE x"]))
+    elif k == 4:    # ... nor in the middle of a line
+        n = IniNode("entry", name=b"mid", parts=[("lit", b"x @INCLUDE inc")])
+        return None if S in b"x @INCLUDE inc" or S in n.name else n
+    else:
+        return None
+    return None if S in n.text else n
+
+
+def gen_ini(rng, sep, env, lookalike=0.0):
     """-> list of IniNode; references only to keys defined earlier (full names) or to the environment"""
     nodes, defined, prefix = [], [], b""
     values = {}
     for _ in range(rng.choice([1, 3, 6, 12, 24])):
         r = rng.random()
+        if lookalike and rng.random() < lookalike:
+            n = directive_lookalike(rng, sep)
+            if n is not None:
+                nodes.append(n)
+                if n.kind == "entry":
+                    values[prefix + n.name] = ini_value(n.parts, values, env)
+                continue
         if r < 0.08:
             nodes.append(IniNode("blank"))
         elif r < 0.18:
@@ -655,6 +688,10 @@ def ini_expected(nodes, env):
         elif n.kind == "entry":
             v = ini_value(n.parts, values, env)
             out.append((prefix + n.name, v)); values[prefix + n.name] = v
+        elif n.kind == "bare":
+            # a line without the separator: the whole (trimmed) line is the key, the value is empty
+            k = n.text.strip(b" \t\r\n")
+            out.append((prefix + k, b"")); values[prefix + k] = b""
     return out
 
 
@@ -669,6 +706,8 @@ def render_ini_lines(rng, nodes, sep):
             lines.append(sp() + b"#" + n.text)
         elif n.kind == "section":
             lines.append(sp() + b"[" + sp() + n.name + sp() + b"]" + sp() + rng.choice([b"", b"\r"]))
+        elif n.kind == "bare":
+            lines.append(getattr(n, "lead", b"") + n.text + rng.choice([b"", b"\r", b"\t"]))
         else:
             v = b""
             for p in n.parts:
@@ -682,7 +721,8 @@ def render_ini_lines(rng, nodes, sep):
                     v += b"${!" + p[1] + b"}"
                 else:
                     v += b"${" + p[1] + b"${" + p[2] + b"}}"
-            lines.append(sp() + n.name + sp() + bytes([sep]) + sp() + v + sp() + rng.choice([b"", b"\r"]))
+            gap = b"" if getattr(n, "nospace", False) else sp()
+            lines.append(sp() + n.name + gap + bytes([sep]) + sp() + v + sp() + rng.choice([b"", b"\r"]))
     return lines
 
 
